@@ -93,8 +93,13 @@ pub fn boundary7() -> Vec<u16> {
 }
 pub const KINDS: [Kind; 4] = [Kind::Entry7, Kind::Entry14, Kind::Inc, Kind::Dec];
 
-fn vio(chk: &Check, id: &str, rule: &str, cls: &str, case: String, detail: String) {
-    chk.violate(Violation::new(rule, format!("{}/{}/{}", id, rule, cls), detail).with_case(case));
+macro_rules! vio {
+    ($chk:expr, $id:expr, $rule:expr, $cls:expr, $case:expr, $detail:expr) => {{
+        let sig = format!("{}/{}/{}", $id, $rule, $cls).replace(' ', "_");
+        if !$chk.flooded(&sig) {
+            $chk.violate(Violation::new($rule, sig, $detail).with_case($case));
+        }
+    }};
 }
 
 // ---------------------------------------------------------------------------------------------
@@ -114,14 +119,14 @@ fn c09_one(chk: &Check, p: &Pnm) {
     let m = p.build();
     let acc = tup_pnm(&m);
     if acc != p.tup() {
-        vio(chk, "C09", "accessors-return-arguments", &format!("{:?}", p.kind), format!("pnm|{:?}", p), format!("{:?}: accessors report {:?}, expected {:?}", p, acc, p.tup()));
+        vio!(chk, "C09", "accessors-return-arguments", &format!("{:?}", p.kind), format!("pnm|{:?}", p), format!("{:?}: accessors report {:?}, expected {:?}", p, acc, p.tup()));
     }
     let consistent = match p.kind {
         Kind::Entry14 => m.is_14_bit() && m.data_type() == DataType::DataEntry,
         _ => !m.is_14_bit() && m.value().get() <= 127,
     };
     if !consistent {
-        vio(chk, "C09", "resolution-consistent", &format!("{:?}", p.kind), format!("pnm|{:?}", p), format!("{:?}: is_14_bit={} value={} data_type={:?}", p, m.is_14_bit(), m.value().get(), m.data_type()));
+        vio!(chk, "C09", "resolution-consistent", &format!("{:?}", p.kind), format!("pnm|{:?}", p), format!("{:?}: is_14_bit={} value={} data_type={:?}", p, m.is_14_bit(), m.value().get(), m.data_type()));
     }
     for (lsb_first, order) in [(false, DataEntryByteOrder::MsbFirst), (true, DataEntryByteOrder::LsbFirst)] {
         let enc = p.encoding(lsb_first);
@@ -132,19 +137,19 @@ fn c09_one(chk: &Check, p: &Pnm) {
         let r: [Option<RawShortMessage>; 4] = m.to_short_messages(order);
         let s: [Option<StructuredShortMessage>; 4] = m.to_short_messages(order);
         if slots(&r) != want {
-            vio(chk, "C09", "encoding", &format!("{:?}/{:?}/Raw", p.kind, order), format!("pnm|{:?}|{}", p, lsb_first), format!("{:?} {:?}: encodes to {:?}, expected {:?}", p, order, slots(&r), want));
+            vio!(chk, "C09", "encoding", &format!("{:?}/{:?}/Raw", p.kind, order), format!("pnm|{:?}|{}", p, lsb_first), format!("{:?} {:?}: encodes to {:?}, expected {:?}", p, order, slots(&r), want));
         }
         if slots(&s) != want {
-            vio(chk, "C09", "encoding", &format!("{:?}/{:?}/Structured", p.kind, order), format!("pnm|{:?}|{}", p, lsb_first), format!("{:?} {:?}: encodes to {:?}, expected {:?}", p, order, slots(&s), want));
+            vio!(chk, "C09", "encoding", &format!("{:?}/{:?}/Structured", p.kind, order), format!("pnm|{:?}|{}", p, lsb_first), format!("{:?} {:?}: encodes to {:?}, expected {:?}", p, order, slots(&s), want));
         }
         if want[3].is_some() != (p.kind == Kind::Entry14) {
-            vio(chk, "C09", "harness-self-check", "slots", String::new(), "harness encoding table inconsistent".into());
+            vio!(chk, "C09", "harness-self-check", "slots", String::new(), "harness encoding table inconsistent".to_string());
         }
         if !lsb_first {
             let r2: [Option<RawShortMessage>; 4] = m.into();
             let s2: [Option<StructuredShortMessage>; 4] = m.into();
             if slots(&r2) != want || slots(&s2) != want {
-                vio(chk, "C09", "array-conversion-equals-msb-first", &format!("{:?}", p.kind), format!("pnm|{:?}", p), format!("{:?}: From<..> for [Option<T>;4] gives {:?} / {:?}, MSB-first is {:?}", p, slots(&r2), slots(&s2), want));
+                vio!(chk, "C09", "array-conversion-equals-msb-first", &format!("{:?}", p.kind), format!("pnm|{:?}", p), format!("{:?}: From<..> for [Option<T>;4] gives {:?} / {:?}, MSB-first is {:?}", p, slots(&r2), slots(&s2), want));
             }
         }
     }
@@ -215,7 +220,7 @@ pub fn run_c09(chk: &Check, tier: Tier) {
                 evals.fetch_add(n, Ordering::Relaxed);
                 nontriv.fetch_add(nt, Ordering::Relaxed);
             }
-            Err(p) => vio(chk, "C09", "panics-on-valid-input", "encoder", format!("pnmrow|{}|{}", c, reg), format!("constructors/encoder panicked on channel {} registered={}: {}", c, reg, p)),
+            Err(p) => vio!(chk, "C09", "panics-on-valid-input", "encoder", format!("pnmrow|{}|{}", c, reg), format!("constructors/encoder panicked on channel {} registered={}: {}", c, reg, p)),
         }
     });
     if capped.load(Ordering::Relaxed) {
@@ -314,7 +319,7 @@ pub fn c11_system(pid: &'static str, ch: u8, report: Report, values: &[u8], conc
             }
         }
     }
-    sys.noncontrib = noncontrib_small::<ParameterNumberMessageScanner>(ch);
+    sys.others = noncontrib_small::<ParameterNumberMessageScanner>(ch);
     sys
 }
 
@@ -338,7 +343,7 @@ pub fn run_c11(chk: &Check, tier: Tier) {
     if tier.thorough() {
         let all: Vec<u8> = (0..128).collect();
         let mut sys = c11_system("C11", 5, Report { oracle: true, ..Default::default() }, &all, false);
-        sys.noncontrib.truncate(4);
+        sys.others.truncate(12);
         let out = xs::explore(&sys, &Limits { max_states: 6_000_000, max_wall: Duration::from_secs(1500), ..Default::default() });
         engine::record(chk, &sys, &out, None);
     }
@@ -360,7 +365,7 @@ fn c10_feed(chk: &Check, st: &ParameterNumberMessageScanner, c: u8, seq: &[(u8, 
                 (None, Some(_)) => "missing-report",
                 _ => "wrong-message",
             };
-            vio(chk, "C10", "scanner-inverts-encoder", &format!("{}/{}", what, cls), case(),
+            vio!(chk, "C10", "scanner-inverts-encoder", &format!("{}/{}", what, cls), case(),
                 format!("prior scanner state {:?}; feeding {:?} on channel {}: feed #{} (CC {} ={}) returned {:?}, expected {:?}", st, seq, c, i, ctrl, val, got.map(|t| pnm_str(&t)), expect[i].map(|t| pnm_str(&t))));
             return;
         }
@@ -382,7 +387,7 @@ fn c10_message(chk: &Check, st: &ParameterNumberMessageScanner, si: usize, p: &P
     let ok = n == enc.len() && outs[..n - 1].iter().all(|o| o.is_none()) && outs[n - 1] == Some(m);
     if !ok {
         let cls = if outs[..n.saturating_sub(1)].iter().any(|o| o.is_some()) { "early-report" } else if outs.last().map_or(true, |o| o.is_none()) { "missing-report" } else { "wrong-message" };
-        vio(chk, "C10", "scanner-inverts-encoder", &format!("{:?}/{}", p.kind, cls), format!("c10|state{}|{:?}", si, p),
+        vio!(chk, "C10", "scanner-inverts-encoder", &format!("{:?}/{}", p.kind, cls), format!("c10|state{}|{:?}", si, p),
             format!("prior scanner state {:?}; feeding the encoding of {:?} returned {:?}", st, p, outs));
     }
 }
@@ -445,7 +450,7 @@ pub fn run_c10(chk: &Check, tier: Tier) {
                 }
             });
             if let Err(e) = r {
-                vio(chk, "C10", "panics-on-valid-input", "inversion", format!("c10|state{}", si), format!("inversion from state {:?} panicked: {}", st, e));
+                vio!(chk, "C10", "panics-on-valid-input", "inversion", format!("c10|state{}", si), format!("inversion from state {:?} panicked: {}", st, e));
             }
             if *st != fresh {
                 nontrivial.fetch_add(msgs.len() as u64, Ordering::Relaxed);
@@ -525,7 +530,7 @@ pub fn run_c10(chk: &Check, tier: Tier) {
                     })
                 });
                 if let Err(e) = bad {
-                    vio(chk, "C10", "panics-on-valid-input", "inversion-dirty", format!("c10dirty|{}", name), format!("inversion from dirty state {} panicked: {}", name, e));
+                    vio!(chk, "C10", "panics-on-valid-input", "inversion-dirty", format!("c10dirty|{}", name), format!("inversion from dirty state {} panicked: {}", name, e));
                 }
                 n_b += set.len() as u64;
                 if *st != fresh {
